@@ -139,7 +139,7 @@ func WellFormed(p *ps.Program) (bool, []string) {
 		diag["other"] = true
 	}
 	switch p.Quirk {
-	case "sig-prednamedbool", "sig-pred2", "sig-predvariadic":
+	case "sig-prednamedbool", "sig-pred2", "sig-predvariadic", "sig-shape":
 		diag["other"] = true // unsupported predicate signature
 	case "sig-fbarity":
 		diag["fallback"] = true
